@@ -96,6 +96,7 @@ def main(mod, argv=None):
                   "theorem": getattr(mod, "THEOREMS", "")}
         rep.violation(mod.signature(small, codes2), replay)
 
+    extra_cov = mod.extra_monitors(rep, args) if hasattr(mod, "extra_monitors") and not args.replay else {}
     if n_unknown:
         broken.append("%d case(s): exact oracle certificate rejected by the Coq checker (code 9)" % n_unknown)
     if broken and rep.violations == 0:       # (differs from lpcheck.main: known findings do not hide a broken obligation)
@@ -120,6 +121,7 @@ def main(mod, argv=None):
             "input_distribution": stats,
             "broken_obligations": broken,
             "case_generation_and_run_s": round(time.time() - t_gen, 1),
+            "extra_monitors": extra_cov,
         },
         "assumptions": list(getattr(mod, "ASSUMPTIONS", [])),
     }
